@@ -166,8 +166,14 @@ def run_sequence_check(chk, prefix, what):
     wd = vlib.workdir(chk.pid)
     thorough = chk.tier == "thorough"
     binary = vlib.harness_build()
-    depth = 5 if thorough else 3
-    cases = model_cases(chk, depth, 4 if thorough else 3)
+    # thorough: every script of up to 4 frames for all 18 commands (4.5 M behaviours) on the specification; replayed are all of depth 3
+    # and, for a one-shot, a looping and the upload sequence, all of depth 4 (depth 5 - 70 M behaviours with the alphabet as it has
+    # grown - is beyond this sandbox; it was run while the alphabet was smaller)
+    depth = 4 if thorough else 3
+    cases = model_cases(chk, depth, 3)
+    if thorough:
+        for cmd in ("Registration", "ReadCard", "WriteFile", "EndOfDay"):
+            cases += model_cases(chk, 4, 4, only_cmd=cmd, label="MC_Sequence(%s)" % cmd)
     cases += model_cases_wfail(chk, 3 if thorough else 2, 4 if thorough else 3)
     d = upload_dir(wd)
     for c in cases:
@@ -235,10 +241,10 @@ def run_sequence_check(chk, prefix, what):
                        "truncated last frame) replayed against the real into_stream through a scripted peer; the observed event log (frames "
                        "written, frames consumed, items, end) and the bytes left on the connection must equal the model's. impl -> spec: seeded "
                        "random scripts of up to 40 frames with generated packet bodies and one injected fault in half of them, validated by TLC "
-                       "(TraceSequence). The thirteen subcommands of zvt_cli run as processes against a scripted terminal on a loopback TCP "
+                       "(TraceSequence); thorough: model depth 4, replay depth 3 for all and depth 4 for four commands. The thirteen subcommands of zvt_cli run as processes against a scripted terminal on a loopback TCP "
                        "connection for a stratified sample of MC_ZvtCli's runs (every script of up to 3 frames); the frames written are taken at "
                        "the system call and judged by TLC (TraceCli). "
-                       "distinct_nontrivial = replayed model behaviours (distinct terminal states)" % (4 if thorough else 3))
+                       "distinct_nontrivial = replayed model behaviours (distinct terminal states)" % 3)
     if cases:
         c = cases[len(cases) // 3]
         chk.sample({"cmd": c["cmd"], "script": [cc.hexs(f["bytes"]) for f in c["frames"]],
